@@ -665,6 +665,8 @@ val snapshot_row : table -> nat -> z list
 
 val snapshot_entity : w -> ent -> z list option
 
+val world_view : w -> z list
+
 val log : z list -> unit mW
 
 val run_callback : nat -> ent -> unit mW
@@ -788,7 +790,17 @@ val w_exchange_batch :
   nat -> rel list -> nat list -> nat list -> rel list -> (nat * z) list ->
   unit mW
 
-val set_relations_table : nat -> nat -> rel list -> unit mW
+val set_relations_plan :
+  nat -> rel list -> (((nat * nat) * nat) * mask0) option mW
+
+val opt_list : 'a1 option list -> 'a1 list
+
+val set_relations_fire_removes : (((nat * nat) * nat) * mask0) list -> unit mW
+
+val set_relations_move :
+  (((nat * nat) * nat) * mask0) -> (((nat * nat) * nat) * mask0) mW
+
+val set_relations_fire_adds : (((nat * nat) * nat) * mask0) list -> unit mW
 
 val w_set_relations_batch : nat -> rel list -> rel list -> unit mW
 
